@@ -132,7 +132,14 @@ class SwapOp(odl.Operator):
 
     @property
     def adjoint(self):
-        return self
+        # <Sx, y>_w = sum_i w_i x_swap(i) y_i  =>  (S* y)_i = (w_swap(i) / w_i) y_swap(i)
+        w = getattr(self.domain.weighting, 'array', None)
+        if w is None:
+            return self
+        w = np.asarray(w, dtype=float)
+        ws = np.empty_like(w)
+        ws[0::2], ws[1::2] = w[1::2], w[0::2]
+        return odl.MultiplyOperator(self.domain.element(ws / w)) * self
 
 
 def build(e, sp, subst=None, matmul=False):
